@@ -45,11 +45,12 @@ func main() { vlib.Run("C21", run) }
 func run(c *vlib.Ctx) {
 	c.Rule("one case = one Republisher(tshort 1-5ms, tlong 5-20ms) with 1-2 updaters x 5-40 Update calls (pauses 0..25ms chosen around the timer values), " +
 		"1-2 WaitPub callers, publish function failing with p in {0,1/5,1/2} and delaying 0-3ms, then faults off, final Update and Close; " +
-		"strata: uniq (every handed CID is new), revert (an updater also re-hands the initial, the last published or an earlier value), two (2 updaters, own sequences); " +
+		"strata: uniq (every handed CID is new), burst (100-300 back-to-back updates against 60-150 back-to-back WaitPub calls per waiter), revert (an updater also re-hands the initial, the last published or an earlier value), two (2 updaters, own sequences); " +
 		"distinct = FNV of the observed event-kind sequence; non-trivial = measured: a failed publish was later followed by a successful one or updates were coalesced (fewer successful publishes than distinct handed values), " +
 		"and a WaitPub that had handed values to wait for returned nil")
 	c.Cases("uniq", c.N(140, 4000), func(k *vlib.Case) { oneRun(k, "uniq") })
 	c.Cases("two", c.N(80, 3000), func(k *vlib.Case) { oneRun(k, "two") })
+	c.Cases("burst", c.N(40, 1000), func(k *vlib.Case) { oneRun(k, "burst") })
 	c.Cases("revert", c.N(100, 3000), func(k *vlib.Case) { oneRun(k, "revert") })
 }
 
@@ -183,26 +184,45 @@ func oneRun(k *vlib.Case, stratum string) {
 	for u := range plans {
 		ur := r.Fork(fmt.Sprintf("u%d", u))
 		n := ur.Range(5, 40)
+		if stratum == "burst" {
+			n = ur.Range(100, 300)
+		}
 		var sb strings.Builder
 		for i := 0; i < n; i++ {
 			p := plannedUpdate{pause: vlib.Pick(ur, pauses)}
+			if stratum == "burst" && !ur.Chance(1, 40) {
+				p.pause = 0 // back-to-back: Update's drain-then-put window meets WaitPub
+			}
 			if stratum == "revert" && ur.Chance(1, 4) {
 				p.mode = ur.Range(1, 3)
 				p.pick = ur.Intn(1 << 20)
 			}
 			plans[u] = append(plans[u], p)
-			fmt.Fprintf(&sb, "%s/%v ", []string{"new", "init", "lastpub", "earlier"}[p.mode], p.pause)
+			if i < 60 {
+				fmt.Fprintf(&sb, "%s/%v ", []string{"new", "init", "lastpub", "earlier"}[p.mode], p.pause)
+			}
 		}
-		k.Logf("plan updater%d: %s", u, sb.String())
+		k.Logf("plan updater%d (%d updates): %s", u, n, sb.String())
 	}
 	waitPlans := make([][]time.Duration, nwait)
 	for i := range waitPlans {
 		wr := r.Fork(fmt.Sprintf("wt%d", i))
 		n := wr.Range(2, 12)
-		for j := 0; j < n; j++ {
-			waitPlans[i] = append(waitPlans[i], vlib.Pick(wr, pauses))
+		if stratum == "burst" {
+			n = wr.Range(60, 150)
 		}
-		k.Logf("plan waiter%d: pauses %v", i, waitPlans[i])
+		for j := 0; j < n; j++ {
+			p := vlib.Pick(wr, pauses)
+			if stratum == "burst" && !wr.Chance(1, 40) {
+				p = 0
+			}
+			waitPlans[i] = append(waitPlans[i], p)
+		}
+		if n <= 12 {
+			k.Logf("plan waiter%d: pauses %v", i, waitPlans[i])
+		} else {
+			k.Logf("plan waiter%d: %d calls, mostly back-to-back", i, n)
+		}
 	}
 
 	rp := mfs.NewRepublisher(pf, tshort, tlong, initial)
@@ -467,16 +487,18 @@ func check(k *vlib.Case, lg *log, label func(cid.Cid) string, initial cid.Cid, n
 		}
 	}
 	k.SetShape(shape.String())
-	lines := func() {
-		for _, e := range evs {
-			k.Logf("EV t=%d %s who=%d idx=%d %s ok=%v %s", e.t, evName[e.kind], e.who, e.idx, name(e.cid), e.ok, e.note)
-		}
-	}
-	logged := false
+	// the witness carries the events around the refuted point (the whole log
+	// when it is short)
+	failAt := int64(-1)
+	logged := 0
 	fail := func(class, clause, exp, obs string) {
-		if !logged {
-			lines()
-			logged = true
+		if logged < 3 {
+			logged++
+			for _, e := range evs {
+				if len(evs) <= 200 || failAt < 0 || (e.t > failAt-80 && e.t < failAt+20) {
+					k.Logf("EV t=%d %s who=%d idx=%d %s ok=%v %s", e.t, evName[e.kind], e.who, e.idx, name(e.cid), e.ok, e.note)
+				}
+			}
 		}
 		k.Fail(class, clause, exp, obs)
 	}
@@ -512,6 +534,7 @@ func check(k *vlib.Case, lg *log, label func(cid.Cid) string, initial cid.Cid, n
 				if newestA >= 0 && oldestP >= 0 && newestA < oldestP {
 					// both values come from this updater only?
 					if onlyFrom(byCid[a.cid], who, nupd) && onlyFrom(byCid[p.cid], who, nupd) {
+						failAt = a.start
 						fail("regress", "no-regress: a value older than an already published one is never passed to the publish function",
 							fmt.Sprintf("after the successful publish #%d of %s nothing older from updater %d", p.n, name(p.cid), who),
 							fmt.Sprintf("attempt #%d carries %s (update %d of updater %d; published value was update %d)", a.n, name(a.cid), newestA, who, oldestP))
@@ -601,7 +624,17 @@ func check(k *vlib.Case, lg *log, label func(cid.Cid) string, initial cid.Cid, n
 					names = append(names, name(a))
 				}
 				sort.Strings(names)
-				fail("waitpub-early", "waitpub: WaitPub returns nil only after every value handed before the call is published or superseded by a published later value",
+				// discriminating feature of the known Update window: an Update
+				// call overlaps the WaitPub call (Update drains the one-slot
+				// channel before it refills it)
+				class := "waitpub-early"
+				failAt = e.t
+				for _, u := range upds {
+					if u.call < e.t && tc < u.ret {
+						class = "waitpub-early/concurrent-update"
+					}
+				}
+				fail(class, "waitpub: WaitPub returns nil only after every value handed before the call is published or superseded by a published later value",
 					fmt.Sprintf("last successful publish before WaitPub returned (t=%d) carries one of %v", e.t, names),
 					fmt.Sprintf("waiter %d call t=%d return t=%d: last successful publish is #%d carrying %s", e.who, tc, e.t, n, name(cur)))
 			}
@@ -619,6 +652,7 @@ func check(k *vlib.Case, lg *log, label func(cid.Cid) string, initial cid.Cid, n
 				names = append(names, name(a))
 			}
 			sort.Strings(names)
+			failAt = closeRet
 			fail("close-stale", "close: after faults stop and Close returns nil the last successful publish carries the last handed value",
 				fmt.Sprintf("one of %v", names), fmt.Sprintf("last successful publish is #%d carrying %s", n, name(cur)))
 		}
@@ -626,6 +660,7 @@ func check(k *vlib.Case, lg *log, label func(cid.Cid) string, initial cid.Cid, n
 	if closeRet >= 0 {
 		for _, p := range pubs {
 			if p.start > closeRet {
+				failAt = p.start
 				fail("publish-after-close", "after-close: no publish after Close returned", "no publish function call after t="+fmt.Sprint(closeRet), fmt.Sprintf("attempt #%d of %s started at t=%d", p.n, name(p.cid), p.start))
 			}
 		}
